@@ -127,11 +127,9 @@ def _pow_uf(I, a, b):
     I.ctx.axiom(z3.Implies(b == 0, r == 1))
     I.ctx.axiom(z3.Implies(b == 1, r == a))
     _note('pow(a,b) > 0 for a > 0; pow(0,b)=0 for b>0; pow(a,0)=1; pow(a,1)=a')
-    from ..core import SIGN_ENGINE
-    if SIGN_ENGINE[0] == '2':
-        I.ctx.axiom(z3.Implies(z3.And(a >= 1, b >= 0), r >= 1))
-        I.ctx.axiom(z3.Implies(z3.And(a > 0, a <= 1, b >= 0), r <= 1))
-        _note('pow(a,b) >= 1 for a >= 1, b >= 0; pow(a,b) <= 1 for 0 < a <= 1, b >= 0')
+    I.ctx.axiom(z3.Implies(z3.And(a >= 1, b >= 0), r >= 1))
+    I.ctx.axiom(z3.Implies(z3.And(a > 0, a <= 1, b >= 0), r <= 1))
+    _note('pow(a,b) >= 1 for a >= 1, b >= 0; pow(a,b) <= 1 for 0 < a <= 1, b >= 0')
     return r
 
 
